@@ -72,6 +72,22 @@ A4 = [
     "___",
     "5 supra",
 ]
+LONG = [
+    "1 U.S. " + "1" * 4400,  # more digits than int() converts by default
+    "Id. at " + "9" * 4400,
+    "9" * 4400 + " U.S. 1",
+    "1 U.S. at " + "7" * 4400,
+    "Foo, supra, at " + "3" * 4400,
+    "1 U.S. 1 (" + "2" * 4400 + ")",
+]
+LONG_COMPANIONS = ["", "1 U.S. 1", "Id. at 5.", "Foo v. Bar, ", ". ", " ", "Id.", "1 U.S. at 5", "Foo, supra", "1 Minn. L. Rev. ___", "§ 3", " (1999)"]
+STRING_TEMPLATES = [
+    "12 {r} 345 (1999).",
+    "Foo v. Bar (1990) 12 {r} 345, 350 (2010); Id. at 346.",
+    "See 12 {r} at 345 (x).",
+    "12 {r} ___ (1980). Id. at 5. Foo, supra, at 3.",
+    "(2100) 12 {r} 345 [0000]",
+]
 MODES = ["unchecked", "skip", "wrap"]
 N = {"quick": {"AC": 4, "HS": 4, "REF": 3}, "thorough": {"AC": 5, "HS": 5, "REF": 4}}
 K = {"quick": {"AC": 2, "HS": 2, "REF": 2}, "thorough": {"AC": 3, "HS": 3, "REF": 2}}
@@ -84,7 +100,7 @@ def setup(tier, seed):
 
 
 def bounds(tier):
-    return {"char_alphabet": [repr(c) for c in CHARS], "max_len": N[tier], "fragment_alphabet": len(A4), "frag_depth": K[tier], "separators": ["", " "], "modes": MODES}
+    return {"char_alphabet": [repr(c) for c in CHARS], "max_len": N[tier], "fragment_alphabet": len(A4), "frag_depth": K[tier], "separators": ["", " "], "modes": MODES, "string_templates": STRING_TEMPLATES, "reporter_strings": "all keys of EDITIONS_LOOKUP"}
 
 
 def pipeline(tok, text):
@@ -127,7 +143,14 @@ def replay(case):
 
 def shards(tier, seed):
     out = []
+    for tok in ("AC", "HS") if tier == "thorough" else ("AC",):
+        for r in range(32):
+            out.append({"part": "strings-" + tok, "alpha": "STRINGS", "tok": tok, "r": r, "n": 32})
     for tok in ("AC", "HS", "REF"):
+        for li in range(len(LONG)):
+            if tok == "REF" and tier == "quick":
+                continue  # ~3 s per text with 6.8k regexes over 4.4k digits: thorough only
+            out.append({"part": "long-" + tok, "alpha": "LONG", "tok": tok, "li": li, "nc": 2 if tok == "REF" else len(LONG_COMPANIONS)})
         n = N[tier][tok]
         for sh in docspace.shards_for(CHARS, n, 2):
             out.append({"part": "chars-" + tok, "alpha": "CHARS", "tok": tok, "depth": n, "sep": "", **sh})
@@ -138,13 +161,36 @@ def shards(tier, seed):
     return out
 
 
+def long_texts(sh):
+    for L in [LONG[sh["li"]]]:
+        for c in LONG_COMPANIONS[: sh["nc"]]:
+            for t in {L + c, c + L, c + " " + L, L + ". " + c, c + ". " + L}:
+                yield (0, 0), t
+
+
+def string_texts(sh):
+    from mc.ey import T
+
+    for rep in sorted(T.EDITIONS_LOOKUP)[sh["r"] :: sh["n"]]:
+        for tmpl in STRING_TEMPLATES:
+            yield (0,), tmpl.format(r=rep)
+
+
 def run_shard(sh):
     st = Stats()
     alpha = CHARS if sh["alpha"] == "CHARS" else A4
     p = st.part(sh["part"])
     tok = sh["tok"]
     seen = set()
-    for idx, text in docspace.walk(alpha, sh["depth"], sh, sep=sh["sep"]):
+    if sh["alpha"] == "LONG":
+        sh = dict(sh, depth=2)
+        gen = long_texts(sh)
+    elif sh["alpha"] == "STRINGS":
+        sh = dict(sh, depth=1)
+        gen = string_texts(sh)
+    else:
+        gen = docspace.walk(alpha, sh["depth"], sh, sep=sh["sep"])
+    for idx, text in gen:
         st.transitions += 1
         if text in seen:
             continue
